@@ -6,6 +6,10 @@ def handle (line : String) : String :=
   | "PKL" :: rest => Pickle.runLine rest
   | "FC" :: rest => Pickle.fcLine rest
   | "ENC" :: rest => Pickle.encLine rest
+  | "PRENDER" :: rest => Path.renderLine rest
+  | "PPARSE" :: rest => Path.parseLine rest
+  | "PSTRINGIFY" :: rest => Path.stringifyLine rest
+  | "PLE" :: rest => Path.leLine rest
   | _ => "bad-op"
 
 partial def loop (h : IO.FS.Stream) (out : IO.FS.Stream) : IO Unit := do
